@@ -34,10 +34,10 @@ func Run(r *core.Report, env *build.Env) {
 		{Pkg: pk, Func: "VerifC03ParseN2", Bound: "whole frontend: all sources of 2 bytes"},
 		{Pkg: pk, Func: "VerifC03Tokens1", Bound: "parser/resolver/typechecker: every token kind as a 1-token program"},
 		{Pkg: pk, Func: "VerifC03Tokens2", Bound: "parser/resolver/typechecker: every sequence of 2 token kinds"},
-		{Pkg: pk, Func: "VerifC03AfterPrefix1", Bound: "20 concrete openings of declarations/statements continued by every token kind"},
+		{Pkg: pk, Func: "VerifC03AfterPrefix1", Bound: "24 concrete openings of declarations/statements continued by every token kind"},
 		{Pkg: pk, Func: "VerifC03AliasText2", Bound: "a function declaration whose alias text ends in 2 arbitrary bytes"},
 		{Pkg: pk, Func: "VerifC03AliasTextBool2", Bound: "the same for a function returning a Wahrheitswert (negation markers)"},
-		{Pkg: pk, Func: "VerifC03AfterPrefix2", Bound: "20 concrete openings continued by every sequence of 2 token kinds"},
+		{Pkg: pk, Func: "VerifC03AfterPrefix2", Bound: "24 concrete openings continued by every sequence of 2 token kinds"},
 	}
 	if r.Tier == "thorough" {
 		hs = append(hs,
